@@ -415,6 +415,13 @@ func (c *wsConnection) subscribe(start time.Time, msg *message) {
 
 	ctx, cancel := context.WithCancel(ctx)
 	c.mu.Lock()
+	if c.closed {
+		// a start that was still in the read buffer when the connection was closed:
+		// close() has already cancelled the active set, nothing may join it any more
+		c.mu.Unlock()
+		cancel()
+		return
+	}
 	if _, dup := c.active[msg.id]; dup {
 		// graphql-transport-ws: "4409: Subscriber for <id> already exists"; starting a second
 		// operation under a running id would leave the first one unreachable for stop and close
